@@ -4,10 +4,10 @@
 pub type P = (i64, i64);
 
 pub fn cross(o: P, a: P, b: P) -> i128 {
-    (a.0 - o.0) as i128 * (b.1 - o.1) as i128 - (a.1 - o.1) as i128 * (b.0 - o.0) as i128
+    (a.0 as i128 - o.0 as i128) * (b.1 as i128 - o.1 as i128) - (a.1 as i128 - o.1 as i128) * (b.0 as i128 - o.0 as i128)
 }
 fn dot(o: P, a: P, b: P) -> i128 {
-    (a.0 - o.0) as i128 * (b.0 - o.0) as i128 + (a.1 - o.1) as i128 * (b.1 - o.1) as i128
+    (a.0 as i128 - o.0 as i128) * (b.0 as i128 - o.0 as i128) + (a.1 as i128 - o.1 as i128) * (b.1 as i128 - o.1 as i128)
 }
 /// p lies on the closed segment ab (a may equal b)
 pub fn on_segment(p: P, a: P, b: P) -> bool {
